@@ -298,7 +298,7 @@ def model_candidates(m):
         gone = m["contexts"][ci]
         if not any(gone in g["ctxs"] for g in m.get("groups", [])):
             cands.append(dict(m, contexts=m["contexts"][:ci] + m["contexts"][ci + 1:]))
-    for flag in ("leftover", "generic_objs", "foreign_early", "foreign_names", "guard", "no_context"):
+    for flag in ("leftover", "generic_objs", "foreign_early", "foreign_names", "guard", "no_context", "wrap_long"):
         if m.get(flag):
             cands.append(dict(m, **{flag: False}))
     return cands
